@@ -336,8 +336,13 @@ class Program:
                 kf = {ln.strip() for ln in fh if ln.strip()}
         except OSError:
             kf = set()
-        from .normalise import restore_param_names, unproperty_known_methods
+        from .normalise import dissolve_subrecords, inline_generator_helpers, restore_param_names, unproperty_known_methods
 
+        self.expanded_generators = inline_generator_helpers({m.name: m.tree for m in self.modules.values()}, kf)
+
+        dis = dissolve_subrecords({m.name: m.tree for m in self.modules.values()})
+        if dis:
+            self.__dict__.setdefault("alpha_renamed", {}).update({q: {**self.__dict__.get("alpha_renamed", {}).get(q, {}), **mp} for q, mp in dis.items()})
         self.unpropertied = unproperty_known_methods({m.name: m.tree for m in self.modules.values()}, kf)
         self.restored_params = restore_param_names({m.name: m.tree for m in self.modules.values()})
         from .normalise import inline_predicates
